@@ -161,6 +161,7 @@ func c13Matchers() []mspec {
 	hb := mspec{K: "hosts", Args: []string{"b.com"}}
 	hsub := mspec{K: "hosts", Args: []string{"{sub}.a.com"}}
 	hv1 := mspec{K: "hv", Args: []string{"hv", "", "1"}}
+	pv1e := mspec{K: "pv", Args: []string{"", "v1"}} // records no parameter: only the path changes
 	return []mspec{
 		{K: "nil"}, ha, hsub, pv1, pv2, hv1,
 		{K: "and", Sub: []mspec{pv1, ha}},
@@ -169,6 +170,9 @@ func c13Matchers() []mspec {
 		{K: "or", Sub: []mspec{hb, pv2}},
 		{K: "and", Sub: []mspec{hv1, hb}},
 		{K: "and", Sub: []mspec{hsub, pv1, hv1}},
+		{K: "and", Sub: []mspec{pv1e, ha}},
+		{K: "or", Sub: []mspec{hv1, ha}}, // a rejecting first member must leave nothing behind for the second
+		{K: "or", Sub: []mspec{hv1, pv1e}},
 	}
 }
 
